@@ -2,102 +2,90 @@
 //
 // Enumerates every stop position (after k successful Scans, k = 0..N) of every
 // (file, skip-flag combination, decoder count), checks the two reported offsets
-// against the encoder's block offsets and resumes real scanners at both offsets.
+// against the encoder's block offsets after every Scan and resumes real scanners
+// at both offsets; variants call Header() before and between the Scans and read
+// through short-read / data-with-EOF readers; chains stop the resumed scanner
+// again and resume from where it says (second and third resume).
+// Files: files.go; byte sources and readers: source.go.
 package main
 
 import (
-	"bytes"
 	"context"
 	"fmt"
 	"io"
+	"time"
 
 	"github.com/paulmach/osm"
 	"github.com/paulmach/osm/osmpbf"
 
 	"verif/gen/pbfgen"
-	"verif/gen/pbfrun"
 	"verif/kit"
 )
 
 type ccase struct {
 	FileName string
-	file     *pbfgen.File
 	Flags    int // bit0 SkipNodes, bit1 SkipWays, bit2 SkipRelations
 	Procs    int
 	Stop     int
+	// Hdr = 1: Header() is called before the first Scan and after every Scan, on
+	// the first scanner and on the resumed ones.
+	Hdr int `json:",omitempty"`
+	// Rd: reader kind of the first scanner and of the chained ones (source.go).
+	Rd int `json:",omitempty"`
+	// Flt = 1: the kinds named by Flags are removed by filters that reject every
+	// element of the kind (no skip flag is set): blocks emptied after decoding.
+	// Flt = 2: skip flags as in Flags, and filters on all three kinds that accept
+	// even ids only: single elements removed, some blocks emptied that way.
+	Flt int `json:",omitempty"`
+	// Chain: after the resume at F stop again after Chain[0] objects, resume at the
+	// offset that scanner reports (relative to its start), stop after Chain[1] ...
+	Chain []int `json:",omitempty"`
 }
 
-func files() map[string]*pbfgen.File {
-	dense := func(ids ...int64) pbfgen.Group {
-		d := &pbfgen.Dense{Info: true, Cols: pbfgen.ColsMask(63), KeysVals: true}
-		for _, id := range ids {
-			d.Nodes = append(d.Nodes, pbfgen.DenseNode(id, id))
-		}
-		return pbfgen.Group{Dense: d}
-	}
-	ways := func(ids ...int64) pbfgen.Group {
-		g := pbfgen.Group{}
-		for _, id := range ids {
-			g.Ways = append(g.Ways, pbfgen.Way{ID: id, Info: pbfgen.FullInfo(id), Refs: []int64{1, 2, id}, Tags: [][2]string{{"w", fmt.Sprint(id)}}})
-		}
-		return g
-	}
-	rels := func(ids ...int64) pbfgen.Group {
-		g := pbfgen.Group{}
-		for _, id := range ids {
-			g.Relations = append(g.Relations, pbfgen.Relation{ID: id, Info: pbfgen.FullInfo(id), Members: []pbfgen.Member{{1, 100, "r"}, {0, id, ""}}})
-		}
-		return g
-	}
-	blk := func(raw bool, gs ...pbfgen.Group) pbfgen.Block {
-		return pbfgen.Block{Groups: gs, Enc: pbfgen.Enc{Raw: raw}}
-	}
-	param := func(b pbfgen.Block) pbfgen.Block {
-		b.Granularity, b.LatOffset, b.LonOffset, b.DateGranularity = pbfgen.I32(1000), pbfgen.I64(123456000), pbfgen.I64(-98765000), pbfgen.I32(2000)
-		return b
-	}
-	return map[string]*pbfgen.File{
-		"A-grouped": {Header: pbfgen.StdHeader(), Blocks: []pbfgen.Block{
-			blk(false, dense(1, 2)), blk(false, dense(3)), blk(false, ways(10, 11)), blk(true, rels(20)), blk(false, ways(12), rels(21, 22))}},
-		"B-empty-and-odd": {Header: pbfgen.StdHeader(), Blocks: []pbfgen.Block{
-			blk(true, dense(1)), blk(false), blk(false, ways(10, 11, 12)), blk(false, pbfgen.Group{Changesets: []int64{5}}), blk(true, dense(2, 3), rels(20)), blk(false, rels(21))}},
-		"C-no-header": {Blocks: []pbfgen.Block{
-			blk(false, ways(10)), blk(false, dense(1, 2, 3)), blk(true, rels(20, 21)), blk(false, dense(4))}},
-		// per-block parameters stated by some blocks and omitted (= defaults) by later ones:
-		// a resumed scanner starts with fresh decoders, an uninterrupted one does not
-		"E-block-params-come-and-go": {Header: pbfgen.StdHeader(), Blocks: []pbfgen.Block{
-			param(blk(false, dense(1, 2))), param(blk(false, ways(10))), blk(false, dense(3)), blk(false, ways(11), rels(20)), param(blk(true, dense(4))), blk(false, dense(5, 6)), blk(false, dense(7))}},
-		"D-interleaved-kinds": {Header: pbfgen.StdHeader(), Blocks: []pbfgen.Block{
-			blk(false, rels(20)), blk(false, dense(1)), blk(false, ways(10)), blk(false, dense(2)), blk(false, rels(21), ways(11), dense(3))}},
-	}
-}
-
-func configure(flags int) func(*osmpbf.Scanner) {
+func configure(flags, flt int) func(*osmpbf.Scanner) {
 	return func(s *osmpbf.Scanner) {
+		switch flt {
+		case 1:
+			// pure functions of the element, nothing retained
+			if flags&1 != 0 {
+				s.FilterNode = func(*osm.Node) bool { return false }
+			}
+			if flags&2 != 0 {
+				s.FilterWay = func(*osm.Way) bool { return false }
+			}
+			if flags&4 != 0 {
+				s.FilterRelation = func(*osm.Relation) bool { return false }
+			}
+			return
+		case 2:
+			s.FilterNode = func(n *osm.Node) bool { return n.ID%2 == 0 }
+			s.FilterWay = func(w *osm.Way) bool { return w.ID%2 == 0 }
+			s.FilterRelation = func(r *osm.Relation) bool { return r.ID%2 == 0 }
+		}
 		s.SkipNodes = flags&1 != 0
 		s.SkipWays = flags&2 != 0
 		s.SkipRelations = flags&4 != 0
 	}
 }
 
-func keep(o osm.Object, flags int) bool {
-	switch o.(type) {
+func keep(o osm.Object, flags, flt int) bool {
+	switch o := o.(type) {
 	case *osm.Node:
-		return flags&1 == 0
+		return flags&1 == 0 && (flt != 2 || o.ID%2 == 0)
 	case *osm.Way:
-		return flags&2 == 0
+		return flags&2 == 0 && (flt != 2 || o.ID%2 == 0)
 	case *osm.Relation:
-		return flags&4 == 0
+		return flags&4 == 0 && (flt != 2 || o.ID%2 == 0)
 	}
 	return false
 }
 
-// expectedFrom returns the (filtered) objects of data blocks bi.. and, per
-// object of the whole filtered sequence, the index of its data block.
-func filtered(f *pbfgen.File, flags int) (objs []osm.Object, block []int) {
+// filtered returns the objects the scan must deliver and, per object, the index
+// of its data block.
+func filtered(f *pbfgen.File, flags, flt int) (objs []osm.Object, block []int) {
 	for bi := range f.Blocks {
 		for _, o := range f.Blocks[bi].Expected() {
-			if keep(o, flags) {
+			if keep(o, flags, flt) {
 				objs = append(objs, o)
 				block = append(block, bi)
 			}
@@ -106,183 +94,435 @@ func filtered(f *pbfgen.File, flags int) (objs []osm.Object, block []int) {
 	return
 }
 
-func main() {
-	kit.Main("C09", "fault_enumeration", func(r *kit.Run) {
-		r.Rule("every (file, 8 skip-flag sets, procs, stop position k=0..N): scan k objects, read both offsets, Close, resume two new scanners at data[F:] and data[P:], and (procs <= 3) a third on one reader over the whole data positioned with Seek(F), whose reported offsets must be relative to F; " +
-			"non-trivial = the stop is not at k=0 and the resumed scan starts at a data block that is not the first file block; distinct = (file,flags,procs,k)")
-		r.Assume("block offsets come from gen/pbfgen's encoder (sum of 4 + header + blob sizes)")
-		fs := files()
-		names := []string{"A-grouped", "B-empty-and-odd", "C-no-header", "D-interleaved-kinds", "E-block-params-come-and-go"}
-		procs := []int{1, 2, 3, 4, 6, 10, 11, 12}
-		if !r.Quick() {
-			procs = []int{1, 2, 3, 4, 5, 6, 7, 8, 9, 10, 11, 12, 16, 32, 33}
+func enumerate(r *kit.Run) []ccase {
+	var cases []ccase
+	procsQ := []int{0, 1, 2, 3, 4, 6, 10, 11, 12}
+	procsT := []int{-1, 0, 1, 2, 3, 4, 5, 6, 7, 8, 9, 10, 11, 12, 16, 32, 33}
+	type variant struct {
+		hdr, rd int
+		procs   []int
+	}
+	varsQ := []variant{{1, rdPlain, []int{1, 3}}, {0, rdChunked, []int{1, 3}}, {1, rdDataEOF, []int{1, 3}}}
+	vp := []int{1, 2, 3, 4, 11, 12}
+	varsT := []variant{{1, rdPlain, vp}, {0, rdChunked, vp}, {1, rdChunked, vp}, {0, rdDataEOF, vp}, {1, rdDataEOF, vp}}
+	for _, d := range defs() {
+		flagSets := d.flags
+		if flagSets == nil {
+			flagSets = []int{0, 1, 2, 3, 4, 5, 6, 7}
 		}
-		var cases []ccase
-		if r.ReplayPath != "" {
-			var c ccase
-			r.LoadReplay(&c)
-			c.file = fs[c.FileName]
-			cases = append(cases, c)
-		} else {
-			for _, n := range names {
-				for flags := 0; flags < 8; flags++ {
-					objs, _ := filtered(fs[n], flags)
-					for _, p := range procs {
-						for k := 0; k <= len(objs); k++ {
-							cases = append(cases, ccase{FileName: n, file: fs[n], Flags: flags, Procs: p, Stop: k})
+		procs, vars, cprocs, fprocs := procsQ, varsQ, []int{1, 2}, []int{2}
+		if d.procsQ != nil {
+			procs = d.procsQ
+		}
+		if !r.Quick() {
+			procs, vars, cprocs, fprocs = procsT, varsT, []int{1, 2, 3, 12}, []int{1, 2, 3, 12}
+			if d.procsT != nil {
+				procs = d.procsT
+			}
+		}
+		for _, flags := range flagSets {
+			_, blocks := filtered(d.file, flags, 0)
+			n := len(blocks)
+			if r.Quick() && d.stopBlocksQ != nil && flags != 0 {
+				continue
+			}
+			stopOK := func(k int) bool {
+				if r.Quick() && d.stopBlocksQ != nil {
+					return k > 0 && d.stopBlocksQ[blocks[k-1]]
+				}
+				return d.stopBlocks == nil || k == 0 || k == n || d.stopBlocks[blocks[k-1]]
+			}
+			// 1. every stop position, plain
+			for _, p := range procs {
+				for k := 0; k <= n; k++ {
+					if stopOK(k) {
+						cases = append(cases, ccase{FileName: d.name, Flags: flags, Procs: p, Stop: k})
+					}
+				}
+			}
+			// 2. Header() calls before / between the Scans, other reader kinds
+			if d.variants {
+				for _, v := range vars {
+					for _, p := range v.procs {
+						for k := 0; k <= n; k++ {
+							cases = append(cases, ccase{FileName: d.name, Flags: flags, Procs: p, Stop: k, Hdr: v.hdr, Rd: v.rd})
+						}
+					}
+				}
+			}
+			// 2b. elements removed by filters instead of / next to skip flags
+			if d.variants {
+				for flt := 1; flt <= 2; flt++ {
+					_, fb := filtered(d.file, flags, flt)
+					for _, p := range fprocs {
+						for k := 0; k <= len(fb); k++ {
+							cases = append(cases, ccase{FileName: d.name, Flags: flags, Procs: p, Stop: k, Flt: flt})
+						}
+					}
+				}
+			}
+			// 3. chains. A resumed scanner depends on the block it starts at only, so the
+			// first stop is the first object of each block; the second stop is every
+			// position of the resumed scan; a third stop (one object into the second
+			// resume: quick, flags 0; every position: thorough) gives the third resume.
+			if d.chains {
+				for _, p := range cprocs {
+					for k1 := 1; k1 <= n; k1++ {
+						if k1 > 1 && blocks[k1-1] == blocks[k1-2] {
+							continue
+						}
+						from1 := k1 - 1 // index of the first object of the resumed scan
+						for k2 := 0; k2 <= n-from1; k2++ {
+							hdr := (k1 + k2) % 2 // alternate: Header() calls in every second chain
+							cases = append(cases, ccase{FileName: d.name, Flags: flags, Procs: p, Stop: k1, Hdr: hdr, Rd: k2 % 3, Chain: []int{k2}})
+							if k2 == 0 {
+								continue
+							}
+							// first object of the block the second stop lies in
+							from2 := from1 + k2 - 1
+							for from2 > 0 && blocks[from2-1] == blocks[from2] {
+								from2--
+							}
+							for k3 := 0; k3 <= n-from2; k3++ {
+								if r.Quick() && (k3 != 1 || flags != 0 || p != 1) {
+									continue
+								}
+								cases = append(cases, ccase{FileName: d.name, Flags: flags, Procs: p, Stop: k1, Hdr: 1 - hdr, Rd: k3 % 3, Chain: []int{k2, k3}})
+							}
 						}
 					}
 				}
 			}
 		}
+	}
+	return cases
+}
+
+func main() {
+	kit.Main("C09", "fault_enumeration", func(r *kit.Run) {
+		r.Rule("every (file, skip-flag set, procs incl. 0 = one decoder, stop position k=0..N): scan k objects, compare both offsets with the model after EVERY Scan, Close, resume two new scanners at data[F:] and data[P:], and (procs <= 3) a third on one reader over the whole data positioned with Seek(F), whose two reported offsets must be relative to F; " +
+			"files: 4-8 small blocks (grouped / interleaved kinds, empty blocks and runs of them at the start / middle / end, no header, header only, block parameters that come and go), 59 blocks, block and BlobHeader sizes of very different widths with block starts at exactly 2^16, 2^24, 2^31 and 2^32 (2 GiB and 4.3 GiB streams of 16 MiB blocks, never materialised; quick: the stops at those marks, thorough: also before / after them, a 32 MiB - 1 blob, runs of 127 emptied blocks), raw and zlib, indexdata absent / empty / up to the 65535-byte BlobHeader limit; " +
+			"variants: Header() before the first and after every Scan (offsets still 0 before the first Scan), readers with short reads and with data+EOF, blocks emptied / thinned by Filter functions instead of skip flags; chains: stop the resumed scanner again at every position and resume at start + its reported offset, twice; " +
+			"on the large files the resume at P is not run a second time when P == F; " +
+			"non-trivial = the stop is not at k=0 and the resumed scan starts at a data block that is not the first file block; distinct = (file,flags,procs,k,variant,chain)")
+		// the 2 - 4 GiB cases take 10 - 20 s on an idle machine and many times that on a busy one
+		kit.CaseTimeout = 5 * time.Minute
+		r.Assume("block offsets come from gen/pbfgen's encoder (sum of 4 + header + blob sizes)")
+		r.Note("not judged: the values reported after Scan returned false (the text speaks of the most recently returned object; FullyScannedBytes' comment would also allow the end of the input), files that do not start with a block (empty input)")
+		var cases []ccase
+		if r.ReplayPath != "" {
+			var c ccase
+			r.LoadReplay(&c)
+			cases = append(cases, c)
+		} else {
+			cases = enumerate(r)
+		}
 		r.ParIsolated(len(cases), func(i int) { runCase(r, cases[i]) }, func(i int, what, detail string) {
 			c := cases[i]
-			r.Violation("process-"+what+"/"+kit.CrashClass(detail), fmt.Sprintf("file=%s flags=%03b procs=%d stop=%d: the scanning process ended in a %s:\n%s", c.FileName, c.Flags, c.Procs, c.Stop, what, detail), c)
+			r.Violation("process-"+what+"/"+kit.CrashClass(detail), fmt.Sprintf("%s: the scanning process ended in a %s:\n%s", c.String(), what, detail), c)
 		})
 	})
 }
 
-func runCase(r *kit.Run, c ccase) {
-	enc := c.file.Encode()
-	objs, blocks := filtered(c.file, c.Flags)
-	fail := func(clause, msg string) {
-		r.Violation(clause, fmt.Sprintf("file=%s flags=%03b procs=%d stop=%d: %s", c.FileName, c.Flags, c.Procs, c.Stop, msg), c)
+func (c ccase) String() string {
+	s := fmt.Sprintf("file=%s flags=%03b procs=%d stop=%d", c.FileName, c.Flags, c.Procs, c.Stop)
+	if c.Hdr != 0 || c.Rd != 0 {
+		s += fmt.Sprintf(" header-calls=%d reader=%d", c.Hdr, c.Rd)
 	}
-	s := osmpbf.New(context.Background(), bytes.NewReader(enc.Data), c.Procs)
-	configure(c.Flags)(s)
-	var got []osm.Object
-	for k := 0; k < c.Stop; k++ {
+	if c.Flt != 0 {
+		s += fmt.Sprintf(" filters=%d", c.Flt)
+	}
+	if len(c.Chain) > 0 {
+		s += fmt.Sprintf(" then-stops=%v", c.Chain)
+	}
+	return s
+}
+
+// cx is one running case.
+type cx struct {
+	r      *kit.Run
+	c      ccase
+	d      *fileDef
+	lay    *layout
+	objs   []osm.Object
+	blocks []int
+}
+
+func (x *cx) fail(clause, msg string) {
+	x.r.Violation(clause, x.c.String()+": "+msg, x.c)
+}
+
+// from returns the index of the first object of a scan that starts at offset base.
+func (x *cx) from(base int64) int {
+	for i := range x.objs {
+		if x.lay.dataStarts[x.blocks[i]] >= base {
+			return i
+		}
+	}
+	return len(x.objs)
+}
+
+// wantOffsets: what a scanner whose reader started at base must report while
+// object i is the most recently returned one. F = start of its block; P = the
+// value that was current during the preceding block taken by the consumer, i.e.
+// the start of the preceding file block (blocks emptied by skip flags and the
+// header block are taken too), 0 when the scanner has not seen such a block.
+func (x *cx) wantOffsets(i int, base int64) (f, p int64) {
+	b := x.blocks[i]
+	f = x.lay.dataStarts[b] - base
+	fi := b
+	if x.d.file.Header != nil {
+		fi++ // index into starts
+	}
+	if fi > 0 && x.lay.starts[fi-1] >= base {
+		p = x.lay.starts[fi-1] - base
+	}
+	return
+}
+
+// wantHeader: the header a scanner started at base must report.
+func (x *cx) wantHeader(base int64) *osmpbf.Header {
+	if base == 0 {
+		return x.d.file.ExpectedHeader() // nil for a file without a header block
+	}
+	return nil
+}
+
+// stage runs one scanner on rd (which starts at absolute offset base), takes stop
+// objects, checks both offsets after every Scan and returns the offsets reported
+// at the stop. pre names the scanner in violation keys ("" = the first one).
+func (x *cx) stage(pre string, base int64, stop int, rd io.Reader, hdr int, toEnd bool) (F, P int64, got []osm.Object, ok bool) {
+	from := x.from(base)
+	s := osmpbf.New(context.Background(), rd, x.c.Procs)
+	configure(x.c.Flags, x.c.Flt)(s)
+	defer s.Close()
+	header := func(when string) bool {
+		if hdr == 0 {
+			return true
+		}
+		h, err := s.Header()
+		if err != nil {
+			x.fail(pre+"header-call/error", fmt.Sprintf("Header() %s (reader started at %d): %v", when, base, err))
+			return false
+		}
+		if d := pbfgen.DiffHeader(h, x.wantHeader(base)); d != "" {
+			x.fail(pre+"header-call/value", fmt.Sprintf("Header() %s (reader started at %d): %s", when, base, d))
+			return false
+		}
+		return true
+	}
+	if !header("before the first Scan") {
+		return
+	}
+	if hdr != 0 {
+		// the pipeline is running and has read ahead; nothing was returned yet
+		if f, p := s.FullyScannedBytes(), s.PreviousFullyScannedBytes(); f != 0 || p != 0 {
+			x.fail(pre+"offsets-before-first-scan", fmt.Sprintf("after Header() and before the first Scan (reader started at %d): FullyScannedBytes=%d PreviousFullyScannedBytes=%d, want 0 0", base, f, p))
+			return
+		}
+	}
+	for k := 0; k < stop; k++ {
 		if !s.Scan() {
-			fail("scan-ended-early", fmt.Sprintf("Scan false after %d of %d objects, err=%v", k, len(objs), s.Err()))
-			s.Close()
+			x.fail(pre+"scan-ended-early", fmt.Sprintf("reader started at %d: Scan false after %d of %d objects, err=%v", base, k, len(x.objs)-from, s.Err()))
 			return
 		}
 		got = append(got, s.Object())
+		if !header(fmt.Sprintf("after object %d", k)) {
+			return
+		}
 		// the offsets must be right after EVERY scan, not only the last
-		wantF := enc.DataStarts[blocks[k]]
+		wantF, wantP := x.wantOffsets(from+k, base)
 		if f := s.FullyScannedBytes(); f != wantF {
-			fail("fully-scanned-bytes", fmt.Sprintf("after object %d FullyScannedBytes=%d want %d (block %d)", k, f, wantF, blocks[k]))
-			s.Close()
+			x.fail(pre+"fully-scanned-bytes", fmt.Sprintf("reader started at %d: after object %d FullyScannedBytes=%d want %d (block %d at absolute offset %d)", base, k, f, wantF, x.blocks[from+k], wantF+base))
+			return
+		}
+		if p := s.PreviousFullyScannedBytes(); p != wantP {
+			x.fail(pre+"previous-fully-scanned-bytes", fmt.Sprintf("reader started at %d: after object %d PreviousFullyScannedBytes=%d want %d (F=%d)", base, k, p, wantP, wantF))
 			return
 		}
 	}
-	F, P := s.FullyScannedBytes(), s.PreviousFullyScannedBytes()
+	F, P = s.FullyScannedBytes(), s.PreviousFullyScannedBytes()
+	if toEnd {
+		// stop is the number of objects left: the next Scan must report the end
+		// (the offsets after it are not judged)
+		if s.Scan() {
+			x.fail(pre+"objects", fmt.Sprintf("reader started at %d: an object (%s) after the %d expected", base, pbfgen.IDs([]osm.Object{s.Object()}), stop))
+			return
+		}
+		if err := s.Err(); err != nil {
+			x.fail(pre+"error", fmt.Sprintf("reader started at %d: %v after %d objects", base, err, stop))
+			return
+		}
+	}
 	s.Close()
-	if d := pbfgen.DiffObjects(got, objs[:c.Stop]); d != "" {
-		fail("prefix", d)
+	if d := pbfgen.DiffObjects(got, x.objs[from:from+stop]); d != "" {
+		x.fail(pre+"prefix", d)
+		return
+	}
+	return F, P, got, true
+}
+
+type result struct {
+	Header    *osmpbf.Header
+	HeaderErr error
+	Objects   []osm.Object
+	Err       error
+}
+
+// scanAll: Header(), then scan to the end.
+func (x *cx) scanAll(rd io.Reader) (res result) {
+	s := osmpbf.New(context.Background(), rd, x.c.Procs)
+	configure(x.c.Flags, x.c.Flt)(s)
+	res.Header, res.HeaderErr = s.Header()
+	for s.Scan() {
+		res.Objects = append(res.Objects, s.Object())
+	}
+	res.Err = s.Err()
+	s.Close()
+	return
+}
+
+// resumeAt starts a new scanner on an independent reader over data[off:] and
+// demands exactly the objects of the blocks from off on.
+func (x *cx) resumeAt(pre, name string, off int64) (res result, ok bool) {
+	if off < 0 || off > x.lay.src.Len() {
+		x.fail(pre+"offset-out-of-range", fmt.Sprintf("%s=%d", name, off))
+		return
+	}
+	want := x.objs[x.from(off):]
+	res = x.scanAll(x.lay.src.open(off, rdPlain))
+	if res.Err != nil || res.HeaderErr != nil {
+		x.fail(pre+"resume-error/"+name, fmt.Sprintf("resume at %s=%d: header err %v, scan err %v", name, off, res.HeaderErr, res.Err))
+		return
+	}
+	startsWithHeader := off == 0 && x.d.file.Header != nil
+	if !startsWithHeader && res.Header != nil {
+		x.fail(pre+"resume-header/"+name, fmt.Sprintf("resume at %s=%d: Header() = %+v for a stream that starts with a data block", name, off, res.Header))
+		return
+	}
+	if d := pbfgen.DiffObjects(res.Objects, want); d != "" {
+		x.fail(pre+"resume-objects/"+name, fmt.Sprintf("resume at %s=%d: %s", name, off, d))
+		return
+	}
+	return res, true
+}
+
+func runCase(r *kit.Run, c ccase) {
+	d := defByName(c.FileName)
+	if d == nil {
+		kit.Fatalf("unknown file %q", c.FileName)
+	}
+	x := &cx{r: r, c: c, d: d, lay: d.layout()}
+	x.objs, x.blocks = filtered(d.file, c.Flags, c.Flt)
+	lay := x.lay
+
+	F, P, got, ok := x.stage("", 0, c.Stop, lay.src.open(0, c.Rd), c.Hdr, false)
+	if !ok {
 		return
 	}
 	wantF, wantP := int64(0), int64(0)
 	curBlock := -1
 	if c.Stop > 0 {
-		curBlock = blocks[c.Stop-1]
-		wantF = enc.DataStarts[curBlock]
-		// the preceding block taken by the consumer is the preceding file block
-		// (blocks emptied by skip flags are still taken); 0 before that.
-		fi := curBlock
-		if c.file.Header != nil {
-			fi++ // index into enc.Starts
-		}
-		if fi > 0 {
-			wantP = enc.Starts[fi-1]
-		}
+		curBlock = x.blocks[c.Stop-1]
+		wantF, wantP = x.wantOffsets(c.Stop-1, 0)
 	}
 	nt := c.Stop > 0 && wantF > 0
-	r.Case(fmt.Sprintf("%s|%d|%d|%d", c.FileName, c.Flags, c.Procs, c.Stop), nt)
+	r.Case(fmt.Sprintf("%s|%d|%d|%d|%d|%d|%d|%v", c.FileName, c.Flags, c.Procs, c.Stop, c.Hdr, c.Rd, c.Flt, c.Chain), nt)
 	if r.WantSample() && nt {
-		r.Sample(map[string]interface{}{"file": c.FileName, "flags": c.Flags, "procs": c.Procs, "stop_after": c.Stop, "F": F, "P": P, "block_starts": enc.Starts})
+		starts := lay.starts
+		if len(starts) > 12 {
+			starts = starts[:12]
+		}
+		r.Sample(map[string]interface{}{"file": c.FileName, "flags": c.Flags, "procs": c.Procs, "stop_after": c.Stop, "header_calls": c.Hdr, "reader": c.Rd, "filters": c.Flt, "then_stops": c.Chain, "F": F, "P": P, "block_starts": starts})
 	}
 	if F != wantF {
-		fail("fully-scanned-bytes", fmt.Sprintf("FullyScannedBytes=%d want %d", F, wantF))
+		x.fail("fully-scanned-bytes", fmt.Sprintf("FullyScannedBytes=%d want %d", F, wantF))
 		return
 	}
 	if P != wantP {
-		fail("previous-fully-scanned-bytes", fmt.Sprintf("PreviousFullyScannedBytes=%d want %d (F=%d)", P, wantP, F))
+		x.fail("previous-fully-scanned-bytes", fmt.Sprintf("PreviousFullyScannedBytes=%d want %d (F=%d)", P, wantP, F))
 		return
 	}
+
+	if len(c.Chain) > 0 {
+		// (the resumes of the first stop are judged by the case without a chain)
+		x.chain(F, c.Chain)
+		return
+	}
+
 	// resume at both offsets
 	for _, off := range []struct {
 		name string
 		v    int64
 	}{{"F", F}, {"P", P}} {
-		if off.v < 0 || off.v > int64(len(enc.Data)) {
-			fail("offset-out-of-range", fmt.Sprintf("%s=%d", off.name, off.v))
+		if off.name == "P" && P == F && lay.src.Len() > 1<<20 {
+			continue // large files: not the same scan of the same bytes twice
+		}
+		res, ok := x.resumeAt("", off.name, off.v)
+		if !ok {
 			return
 		}
-		// expected: all filtered objects of data blocks starting at or after the offset
-		var want []osm.Object
-		for i, o := range objs {
-			if enc.DataStarts[blocks[i]] >= off.v {
-				want = append(want, o)
-			}
-		}
-		res := pbfrun.Scan(enc.Data[off.v:], c.Procs, configure(c.Flags))
-		if res.Err != nil || res.HeaderErr != nil {
-			fail("resume-error/"+off.name, fmt.Sprintf("resume at %s=%d: header err %v, scan err %v", off.name, off.v, res.HeaderErr, res.Err))
-			return
-		}
-		startsWithHeader := off.v == 0 && c.file.Header != nil
-		if !startsWithHeader && res.Header != nil {
-			fail("resume-header/"+off.name, fmt.Sprintf("resume at %s=%d: Header() = %+v for a stream that starts with a data block", off.name, off.v, res.Header))
-			return
-		}
-		if d := pbfgen.DiffObjects(res.Objects, want); d != "" {
-			fail("resume-objects/"+off.name, fmt.Sprintf("resume at %s=%d: %s", off.name, off.v, d))
-			return
+		if off.name != "F" {
+			continue
 		}
 		// the same resume the way a caller with a file does it: one reader over the
 		// whole data, positioned with Seek. Offsets are "relative to where the
 		// reader started", so this scanner reports them relative to off.v, and a
 		// second resume at off.v + reported lands on a block again.
-		if off.name == "F" && c.Procs <= 3 {
-			rs := bytes.NewReader(enc.Data)
-			if _, err := rs.Seek(off.v, io.SeekStart); err != nil {
-				kit.Fatalf("seek: %v", err)
-			}
-			s2 := osmpbf.New(context.Background(), rs, c.Procs)
-			configure(c.Flags)(s2)
-			var got2 []osm.Object
-			bad := ""
-			for s2.Scan() {
-				o := s2.Object()
-				got2 = append(got2, o)
-				k := len(got2) - 1
-				if k < len(want) {
-					// index of want[k] in objs: the objects of want are a suffix of objs
-					j := len(objs) - len(want) + k
-					if f, w := s2.FullyScannedBytes(), enc.DataStarts[blocks[j]]-off.v; f != w && bad == "" {
-						bad = fmt.Sprintf("after resumed object %d FullyScannedBytes=%d, want %d (block at absolute offset %d, reader started at %d)", k, f, w, enc.DataStarts[blocks[j]], off.v)
-					}
-				}
-			}
-			err := s2.Err()
-			s2.Close()
-			if err != nil {
-				fail("resume-seeked-reader/error", fmt.Sprintf("resume on a reader seeked to %d: %v", off.v, err))
-				return
-			}
-			if d := pbfgen.DiffObjects(got2, want); d != "" {
-				fail("resume-seeked-reader/objects", fmt.Sprintf("resume on a reader seeked to %d: %s", off.v, d))
-				return
-			}
-			if bad != "" {
-				fail("resume-seeked-reader/offsets-not-relative-to-start", bad)
+		if c.Procs <= 3 {
+			n := len(x.objs) - x.from(off.v)
+			if _, _, _, ok := x.stage("resume-seeked-reader/", off.v, n, lay.src.openSeek(off.v, c.Rd), c.Hdr, true); !ok {
 				return
 			}
 		}
 		// prefix before the block + resumed suffix == whole sequence (for F)
-		if off.name == "F" && c.Stop > 0 {
+		if c.Stop > 0 {
 			n := 0
-			for i := range objs {
-				if blocks[i] < curBlock {
+			for i := range x.objs {
+				if x.blocks[i] < curBlock {
 					n++
 				}
 			}
 			whole := append(append([]osm.Object{}, got[:n]...), res.Objects...)
-			if d := pbfgen.DiffObjects(whole, objs); d != "" {
-				fail("prefix-plus-suffix", d)
+			if d := pbfgen.DiffObjects(whole, x.objs); d != "" {
+				x.fail("prefix-plus-suffix", d)
 				return
 			}
 		}
+	}
+}
+
+// chain: a scanner on a reader over the whole data positioned at base (the
+// offset the previous scanner reported, made absolute) stops after stops[0]
+// objects; the offsets it reports are relative to base; new scanners at
+// base+F and base+P must deliver exactly the rest; then the same again from
+// base+F with stops[1:].
+func (x *cx) chain(base int64, stops []int) {
+	for level, stop := range stops {
+		pre := fmt.Sprintf("chain%d/", level+1)
+		from := x.from(base)
+		if lay := x.lay; base < 0 || base > lay.src.Len() {
+			x.fail(pre+"offset-out-of-range", fmt.Sprintf("resume offset %d", base))
+			return
+		}
+		if stop > len(x.objs)-from {
+			kit.Fatalf("%s: chained stop %d beyond the %d remaining objects", x.c.String(), stop, len(x.objs)-from)
+		}
+		F, P, _, ok := x.stage(pre, base, stop, x.lay.src.openSeek(base, x.c.Rd), x.c.Hdr, false)
+		if !ok {
+			return
+		}
+		if stop == 0 && (F != 0 || P != 0) {
+			x.fail(pre+"offsets-before-first-scan", fmt.Sprintf("resumed at %d, no Scan yet: FullyScannedBytes=%d PreviousFullyScannedBytes=%d, want 0 0", base, F, P))
+			return
+		}
+		// (for stop > 0 stage compared F and P with the model after the last Scan)
+		if _, ok := x.resumeAt(pre, "F", base+F); !ok {
+			return
+		}
+		if _, ok := x.resumeAt(pre, "P", base+P); !ok {
+			return
+		}
+		base += F
 	}
 }
